@@ -3,6 +3,8 @@ package props
 import (
 	"testing"
 
+	"pgregory.net/rapid"
+
 	"verifharness/bridge"
 	"verifharness/pbt"
 )
@@ -22,6 +24,7 @@ var c05Opts = bridge.GenOpts{
 func TestC05(t *testing.T) {
 	(&pbt.Check{
 		ID:   "C05",
+		Part: "bridge",
 		Rule: "whole-bridge histories incl. bursts of 30-120 sends in one block, 2^200-scale amounts, decimals 0..24, tiny commissions, many validators, time jumps; every Begin/EndBlocker runs under a watchdog on the cache-wrapped store; non-trivial = a block applied >=1 external event and the history held a burst (>64 pool writes in one block) or an executed batch; distinct = distinct case JSON",
 		Gen:  bridge.GenCase(c05Opts),
 		New:  func() interface{} { return &bridge.Case{} },
@@ -38,5 +41,32 @@ func TestC05(t *testing.T) {
 			return f
 		},
 		Assumptions: []string{"a deadlock is declared only for the structural signature described in DESIGN.md 2.1 (MemDB write lock wanted under an open MemDB iterator); any other overrun is reported as inconclusive"},
+	}).Main(t)
+}
+
+// TestC05Oracle: oracle claim histories with hostile contents; only a panicking or hanging blocker is reported.
+func TestC05Oracle(t *testing.T) {
+	(&pbt.Check{
+		ID:   "C05",
+		Part: "oracle",
+		Rule: "oracle claim histories (as C18: repeated, stale, future claims, stake changes, unbonding) whose claims also carry negative / duplicate / 10^58 / empty-named / unset prices and negative / empty / 300-entry / unset / nil holder lists; BeginBlocker and both EndBlockers run under the watchdog through every epoch boundary; non-trivial = every history that reaches an epoch boundary; distinct = distinct case JSON",
+		Gen: func(t *rapid.T) interface{} {
+			c := genOrCase(t).(*OrCase)
+			c.Hostile = true
+			return c
+		},
+		New: func() interface{} { return &OrCase{} },
+		Run: func(ci interface{}, rec *pbt.Rec) *pbt.Failure {
+			f := runOrCaseMode(ci, rec, true)
+			blocks := 0
+			for _, op := range ci.(*OrCase).Ops {
+				if op.Kind == "block" {
+					blocks++
+				}
+			}
+			rec.NonTrivial = blocks >= 5
+			return f
+		},
+		Assumptions: []string{"claims that fail stateless validation or the handler's own checks are simply rejected; only blockers are judged here"},
 	}).Main(t)
 }
